@@ -6,6 +6,7 @@ import (
 	"math/big"
 	"strconv"
 	"strings"
+	"sync"
 
 	"filippo.io/edwards25519"
 	"filippo.io/edwards25519/field"
@@ -41,13 +42,13 @@ func pmScalars() []*big.Int {
 }
 
 var pmScalarVals = pmScalars()
-var pmScalarImpl = func() []*edwards25519.Scalar {
+var pmScalarImplOnce = sync.OnceValue(func() []*edwards25519.Scalar {
 	var o []*edwards25519.Scalar
 	for _, v := range pmScalarVals {
 		o = append(o, mkScalar(v))
 	}
 	return o
-}()
+})
 
 // decode alphabet for SetBytes transitions
 type pmString struct {
@@ -251,8 +252,8 @@ func pmKey(s *pState) []byte {
 }
 
 var (
-	implIdentity  = edwards25519.NewIdentityPoint()
-	implGenerator = edwards25519.NewGeneratorPoint()
+	implIdentity  = sync.OnceValue(edwards25519.NewIdentityPoint)
+	implGenerator = sync.OnceValue(edwards25519.NewGeneratorPoint)
 )
 
 // pmCheckReg evaluates the C12 invariant on one register.
@@ -267,10 +268,10 @@ func pmCheckReg(p *edwards25519.Point, want ref.Pt) *core.Fail {
 	if want.Equal(ref.Base()) {
 		eqG = 1
 	}
-	if got := p.Equal(implIdentity); got != eqI {
+	if got := p.Equal(implIdentity()); got != eqI {
 		return core.Failf("Equal(identity)=%d want %d for %s", got, eqI, want)
 	}
-	if got := p.Equal(implGenerator); got != eqG {
+	if got := p.Equal(implGenerator()); got != eqG {
 		return core.Failf("Equal(generator)=%d want %d for %s", got, eqG, want)
 	}
 	return nil
@@ -363,19 +364,19 @@ func pmApply(s *pState, op string) (bool, *core.Fail) {
 		ret, want = recv.MultByCofactor(&s.P[a]), ref.Mul(big.NewInt(8), s.M[a])
 	case "ScalarBaseMult":
 		k := atoi(f[2])
-		ret, want = recv.ScalarBaseMult(pmScalarImpl[k]), ref.Mul(pmScalarVals[k], ref.Base())
+		ret, want = recv.ScalarBaseMult(pmScalarImplOnce()[k]), ref.Mul(pmScalarVals[k], ref.Base())
 	case "ScalarMult":
 		k, a := atoi(f[2]), atoi(f[3])
 		if !need(a) {
 			return false, nil
 		}
-		ret, want = recv.ScalarMult(pmScalarImpl[k], &s.P[a]), ref.Mul(pmScalarVals[k], s.M[a])
+		ret, want = recv.ScalarMult(pmScalarImplOnce()[k], &s.P[a]), ref.Mul(pmScalarVals[k], s.M[a])
 	case "VarTimeDouble":
 		k, a, k2 := atoi(f[2]), atoi(f[3]), atoi(f[4])
 		if !need(a) {
 			return false, nil
 		}
-		ret = recv.VarTimeDoubleScalarBaseMult(pmScalarImpl[k], &s.P[a], pmScalarImpl[k2])
+		ret = recv.VarTimeDoubleScalarBaseMult(pmScalarImplOnce()[k], &s.P[a], pmScalarImplOnce()[k2])
 		want = ref.Add(ref.Mul(pmScalarVals[k], s.M[a]), ref.Mul(pmScalarVals[k2], ref.Base()))
 	case "MSM", "VTMSM":
 		n := atoi(f[2])
@@ -387,7 +388,7 @@ func pmApply(s *pState, op string) (bool, *core.Fail) {
 			if !need(a) {
 				return false, nil
 			}
-			sc = append(sc, pmScalarImpl[k])
+			sc = append(sc, pmScalarImplOnce()[k])
 			pts = append(pts, &s.P[a])
 			want = ref.Add(want, ref.Mul(pmScalarVals[k], s.M[a]))
 		}
